@@ -47,6 +47,10 @@ UNITS['vfs'] = {
          'old': "                buf += &text[usize::from(del_range.end())..];", 'new': "                buf += &text[usize::from(del_range.start())..];"},
         {'name': 'verus: a range ending past the text is not rejected', 'file': 'crates/glas/src/vfs.rs',
          'old': '                    del_range.end() <= TextSize::of(text),', 'new': '                    del_range.start() <= TextSize::of(text),'},
+        {'name': 'verus: remove_uri leaves the path in the file set (a later request would index a vacant slot)', 'file': 'crates/glas/src/vfs.rs',
+         'old': '        self.local_file_set.remove_file(file);\n', 'new': ''},
+        {'name': 'verus: set_path_content stores the text without registering the path', 'file': 'crates/glas/src/vfs.rs',
+         'old': '                self.local_file_set.insert(file, path);\n', 'new': ''},
     ],
 }
 UNITS['lmap'] = {
